@@ -87,8 +87,9 @@ const (
 
 var vUnits = map[string]int64{"s0": 3, "s1": 1, "s2": 0}
 
-// NewVWorld builds the genesis.
-func NewVWorld() *VWorld {
+// NewVWorld builds the genesis. stray > 0: the vauth module account holds that many wei before any behaviour runs, as
+// a genesis balance of the module address.
+func NewVWorld(stray int64) *VWorld {
 	w := &VWorld{Accts: map[string]*chain.Acct{}, Names: []string{"s0", "s1", "s2", "t0", "t1", "z0", "zf", "zm", "zp"},
 		Other: chain.NewAcct("vauth-other"), Peer: chain.NewAcct("vauth-peer"),
 		Cost: big.NewInt(vauthkeeper.CostSubmitProofExternalOwnedAccount)}
@@ -116,7 +117,16 @@ func NewVWorld() *VWorld {
 			o.ExtraAccts = append(o.ExtraAccts, authtypes.NewBaseAccount(a.Acc(), nil, 0, 0))
 		}
 	}
+	if stray > 0 {
+		// On the pinned tree an EVM value transfer to a module address is refused ("not allowed to receive funds"), so the
+		// stray balance is a genesis balance of the module address (any keeper-level transfer has the same effect).
+		o.ExtraBals = append(o.ExtraBals, banktypes.Balance{Address: sdk.AccAddress(chain.ModuleAddr(vauthtypes.ModuleName).Bytes()).String(),
+			Coins: sdk.NewCoins(sdk.NewInt64Coin(chain.Denom, stray))})
+	}
 	w.C = chain.New(o)
+	if stray > 0 && w.C.Bal(chain.ModuleAddr(vauthtypes.ModuleName), chain.Denom).Int64() != stray {
+		infra("stray balance not in the vauth module account")
+	}
 	return w
 }
 
@@ -317,8 +327,9 @@ func (w *VWorld) Project() trace.M {
 		q[n], r[n] = qq, rr
 	}
 	sq, sr := splitUnits(w.C.Supply(chain.Denom), w.Cost)
+	mq, mr := splitUnits(w.C.Bal(chain.ModuleAddr(vauthtypes.ModuleName), chain.Denom), w.Cost)
 	// every proof in the store belongs to the universe? (a proof for an address nobody asked for would be a finding)
-	return trace.M{"proof": proof, "has": has, "kind": kind, "q": q, "r": r, "supplyQ": sq, "supplyR": sr}
+	return trace.M{"proof": proof, "has": has, "kind": kind, "q": q, "r": r, "supplyQ": sq, "supplyR": sr, "modQ": mq, "modR": mr}
 }
 
 func (w *VWorld) vestMsg(kind string, from, to *chain.Acct) sdk.Msg {
@@ -471,12 +482,12 @@ func prefixKey(ops []VOp) string {
 
 // RunBehaviours executes behaviours, each from the genesis state; chains after common prefixes are cached (a cached
 // chain is never advanced, only cloned), so behaviours sharing a prefix pay for it once.
-func RunBehaviours(bs []Behaviour, out *trace.W, cacheLen int) (nOps int) {
+func RunBehaviours(bs []Behaviour, out *trace.W, cacheLen int, stray int64) (nOps int) {
 	type snap struct {
 		w     *VWorld
 		lines []trace.M
 	}
-	base := NewVWorld()
+	base := NewVWorld(stray)
 	g := base.Project()
 	g["ev"] = "Genesis"
 	cache := map[string]*snap{prefixKey(nil): {w: base, lines: []trace.M{g}}}
